@@ -5,7 +5,8 @@ Import ListNotations.
 Require Import Tinode.Sys.Lifecycle Tinode.Sys.LifecycleProofs Tinode.Sys.LifecycleAttach Tinode.Sys.LifecycleTerm.
 
 (* the steps the server takes by itself (a goroutine that can run): everything except new client
-   requests, a socket closing, a send queue overflowing and the idle timer firing *)
+   requests, a socket closing, a send queue overflowing, the idle timer firing and a store call failing
+   ([HubUnregFail]: the environment decides) *)
 Definition internal (l : label) : bool :=
   match l with
   | HubJoin | InitDone _ _ | TopicReg _ _ | TopicUnreg _ | HubUnreg _ | TopicExit _ | SessDetach _ | DiscEnd _ => true
@@ -87,7 +88,7 @@ Definition stale_unload_cfg : option config := run stale_unload_trace (init_conf
 Ltac stuck_tac :=
   let l := fresh "l" in let c' := fresh "c'" in let Hint := fresh "Hint" in let Hs := fresh "Hs" in
   intros l c' Hint Hs; unfold step in Hs;
-  destruct l as [? ?|? ? ?|? ?| |i ?|i ?|i|i ?|i|?|i|s|s|s]; simpl in Hint; try discriminate Hint;
+  destruct l as [? ?|? ? ?|? ?| |i ?|i ?|i|i ?|i|?|i|s|s|s|]; simpl in Hint; try discriminate Hint;
   try (simpl in Hs; discriminate Hs);
   try (destruct i as [|[|[|i]]]; simpl in Hs; discriminate Hs);
   try (destruct s as [|[|[|[|s]]]]; simpl in Hs; discriminate Hs).
